@@ -143,7 +143,7 @@ def gen_layout(rng, big=False):
     prog, labels = [], []
     nl = rng.randrange(1, 6)
     names = rng.sample(NAMES, nl)
-    target = rng.choice([250, 251, 252, 253, 254, 255, 256]) if not big else rng.choice([65530, 65532, 65534])
+    target = rng.choice([250, 251, 252, 253, 254, 255, 256]) if not big else rng.choice([65529, 65530, 65531, 65532, 65533, 65534, 65535, 65536])
     pieces = []
     for nm in names:
         pieces.append(("label", nm))
@@ -285,6 +285,52 @@ def gen_range(rng):
         prog += [("push", 1, X(rng, ["t"]))] + filler(rng, off - 2) + [("label", "t"), ("op", "jumpdest")]
     else:
         prog += [("mdef", "pp", ["v"], [("push", n, X(rng, ["$v"]))]), ("minv", "pp", [X(rng, [lit(rng, off)])])]
+    return prog
+
+
+def gen_provisional(rng):
+    """fixed-width operands over BACKWARD labels whose distance changes after they were read: between the two labels sits
+    a %push of a forward label that is counted as two bytes when the operand is first evaluated and ends up wider.  The
+    operand is in range / defined at exactly one of the two distances, so the verdict (and the bytes) must come from the
+    final layout, whichever way round"""
+    n = rng.choice([0, 100, 249, 250, 251, 252, 253, 254, 300, 300, 300])
+    final_d = 2 if n < 250 else 3            # distance b - a once `far` is known to need one / two bytes (about; the reference decides)
+    w = rng.choice([1, 1, 2])
+    top = 256 ** w
+    forms = [
+        ["b", "-", "a", "-", "3"],                                   # -1 provisionally, 0 with a push2
+        ["6", "/", "(", "b", "-", "a", "-", "2", ")"],             # division by zero provisionally
+        [str(top * 4 - 1), "-", str(top), "*", "(", "b", "-", "a", ")"],   # too large at distance 2, top-1 at distance 3
+        ["b", "+", str(top - 3), "-", "a"],                          # fits at distance 2, too large at distance 3
+        ["b", "+", str(top - 4), "-", "a"],                          # fits either way; the VALUE must be the final one
+        ["2", "-", "(", "b", "-", "a", ")"],                          # 0 provisionally, negative finally
+        ["12", "/", "(", "3", "-", "(", "b", "-", "a", ")", ")"],   # fine provisionally, division by zero finally
+    ]
+    prog = filler(rng, rng.choice([0, 0, 1, 3]))
+    prog += [("label", "a"), ("apush", X(rng, ["far"])), ("label", "b"), ("op", "jumpdest")]
+    for _ in range(rng.randrange(1, 3)):
+        prog.append(("push", w, X(rng, rng.choice(forms))))
+    prog += filler(rng, n) + [("label", "far"), ("op", "jumpdest")]
+    return prog
+
+
+def gen_twice(rng):
+    """a %push that has to grow TWICE, in separate relaxation rounds: its label is below 65536 while the pushes before it
+    are counted with one or two bytes and at/above 65536 once they are widened (1 -> 2 -> 3 bytes), so the number of
+    rounds exceeds the number of variable-sized pushes; the filler is one raw blob"""
+    k = rng.choice([1, 1, 1, 2, 3])
+    pre = rng.choice([0, 0, 1, 2])
+    delta = rng.choice([-3, -2, -1, 0, 0, 1, 2])
+    prog = filler(rng, pre)
+    for _ in range(k):
+        prog.append(("apush", X(rng, rng.choice([["dest"], ["dest"], ["dest", "-", str(rng.choice([1, 2, 3]))], ["dest", "+", "1"]]))))
+        if rng.random() < 0.3:
+            prog += filler(rng, 1)
+    used = sum(2 if s[0] == "apush" else 1 for s in prog)
+    prog += filler(rng, 65535 - used + delta)
+    prog += [("label", "dest"), ("op", "jumpdest")]
+    if rng.random() < 0.4:
+        prog += filler(rng, rng.randrange(0, 3)) + [("label", "after"), ("op", "jumpdest"), ("apush", X(rng, ["after"]))]
     return prog
 
 
